@@ -72,6 +72,7 @@ type c20Opts struct {
 	NonASCII  bool   // product file names with non-ASCII characters
 	InterCLI2 bool   // ... and that intermediate is itself issued by another intermediate: two -i files
 	CommaName bool   // the product is named with a comma and passed to `run -p` as a path of its own
+	NoLinkDir bool   // `verify` is called without -d from the directory that holds the links (the layout lies elsewhere)
 	OddNames  bool   // step names and the metadata directory contain characters of file-name patterns
 	Resign    bool   // the layout file is first signed as an earlier revision, then revised in place (stale signatures stay) and signed again with the same keys
 }
@@ -174,6 +175,7 @@ func runC20(c *core.Ctx) {
 		}
 		o.InterCLI2 = o.InterCLI && r.Intn(2) == 0
 		o.CommaName = !o.RunDirOpt && r.Intn(4) == 0
+		o.NoLinkDir = r.Intn(4) == 0
 		o.OddNames = r.Intn(4) == 0
 		metaName := "meta"
 		if o.OddNames {
@@ -578,9 +580,24 @@ func runC20(c *core.Ctx) {
 				if w.inter2 != "" {
 					t.inter2 = filepath.Join(t.keys, "intermediate2.cert.pem")
 				}
+				if o.NoLinkDir {
+					// the links lie in the directory `verify` is started in (next to the final products;
+					// the inspection allows *.link), the layout somewhere else; no -d is passed
+					for _, n := range listDir(t.meta) {
+						if strings.HasSuffix(n, ".link") {
+							if b, rerr := os.ReadFile(filepath.Join(t.meta, n)); rerr == nil {
+								os.WriteFile(filepath.Join(t.final, n), b, 0644)
+							}
+						}
+					}
+					t.meta = t.final
+				}
 				keyFiles := tm.f(t)
 				if side == 0 {
 					args := []string{"verify", "-l", t.layout, "-d", t.meta}
+					if o.NoLinkDir {
+						args = []string{"verify", "-l", t.layout}
+					}
 					for _, k := range keyFiles {
 						args = append(args, "-k", k)
 					}
@@ -707,7 +724,7 @@ func init() {
 	core.Register(&core.Property{
 		ID:    "C20",
 		Level: "exploration",
-		Rule: "seeded supply chains of 1-3 steps carried out ONLY through the built `in-toto` binary: per step `run` or `record start` / (changes by hand) / `record stop`, options drawn from {certificate chain over two intermediates passed as two -i files, product named with a comma and passed to `run -p` by its own path, step names and metadata directory with brackets, product names with non-ASCII characters, layout file signed as an earlier revision / revised in place / signed again with the same keys, --use-dsse, -c certificate with the CA in the layout (the certificate issued directly or by an intermediate CA that only `verify -i` supplies), -l strip prefix, -d metadata directory, --run-dir, -x, -e exclude}, step commands that are quiet / print several lines / write to stderr only; in a third of the chains the last step is carried out twice (a noisy first attempt, then the real one, both writing the same link path); layout written by the harness and signed with `in-toto sign` by 1-2 keys; link names checked against the verifier's naming; then `verify` on the honest chain and after each of 15 single tamperings (product byte, extra file, link content, link signature, link missing, link renamed, layout content - verified with all, only the first and only the last signer key -, layout signed by an outsider, wrong -k, extra -k of a non-signer, an unloadable / missing key file listed before a good one, expired layout), each time compared with library verification of a byte-identical copy; `sign --verify` with signer / outsider keys, `key id` on a key and on a non-key, `match-products` on untouched and locally changed products compared with InTotoMatchProducts. " +
+		Rule: "seeded supply chains of 1-3 steps carried out ONLY through the built `in-toto` binary: per step `run` or `record start` / (changes by hand) / `record stop`, options drawn from {`verify` without -d from the directory that holds the links, certificate chain over two intermediates passed as two -i files, product named with a comma and passed to `run -p` by its own path, step names and metadata directory with brackets, product names with non-ASCII characters, layout file signed as an earlier revision / revised in place / signed again with the same keys, --use-dsse, -c certificate with the CA in the layout (the certificate issued directly or by an intermediate CA that only `verify -i` supplies), -l strip prefix, -d metadata directory, --run-dir, -x, -e exclude}, step commands that are quiet / print several lines / write to stderr only; in a third of the chains the last step is carried out twice (a noisy first attempt, then the real one, both writing the same link path); layout written by the harness and signed with `in-toto sign` by 1-2 keys; link names checked against the verifier's naming; then `verify` on the honest chain and after each of 15 single tamperings (product byte, extra file, link content, link signature, link missing, link renamed, layout content - verified with all, only the first and only the last signer key -, layout signed by an outsider, wrong -k, extra -k of a non-signer, an unloadable / missing key file listed before a good one, expired layout), each time compared with library verification of a byte-identical copy; `sign --verify` with signer / outsider keys, `key id` on a key and on a non-key, `match-products` on untouched and locally changed products compared with InTotoMatchProducts. " +
 			"non-trivial = the chain reached `verify`; distinct = (option set, tampering)",
 		Assumptions: []string{"the inspection of the generated layout runs in the directory `verify` is started in (a separate final-product directory)", "open known finding F6 also shows here: --use-dsse together with -c"},
 		Workers:     func(string) int { return 16 },
